@@ -243,11 +243,12 @@ RETCODE adfUndelDir ( struct AdfVolume * vol,
         return RC_ERROR;
 
     if (isDIRCACHE(vol->dosType)) {
+        /* the directory's own cache block is taken before the parent's cache may ask for a new block */
+        adfSetBlockUsed(vol,entry->extension);
+
         rc = adfAddInCache ( vol, &parent, (struct bEntryBlock *) entry );
         if ( rc != RC_OK )
             return rc;
-
-        adfSetBlockUsed(vol,entry->extension);
     }
 
     return adfUpdateBitmap ( vol );
